@@ -53,7 +53,7 @@ def gen_cases(tier: str, seed: int):
                "seed": [seed, int(rng.integers(0, 2**31))]}
     # hostile constrained family: multi-branch / strongly non-linear manifolds, several inner steps, large steps --
     # retractions that can converge to a different branch must be refused by the reversibility check, never returned
-    for i in range({"quick": 200, "thorough": 8000}[tier]):
+    for i in range({"quick": 600, "thorough": 12000}[tier]):
         k = zoo.CONSTRAINED[i % 3]
         spec = zoo.random_sys_spec(rng, kinds=(k,), dim_range=(2, 3), metrics=("none", "diag", "dense"))
         spec["constr"] = ["sine", "arctan_sphere", "sine", "sphere", "arctan_quadric", "sine"][i % 6]
